@@ -118,4 +118,23 @@ theorem checkPivots_sound (s : Str) (L : List (Nat × Nat)) (h : checkPivots s L
   have hc := nodupB_sound _ h2
   exact ⟨⟨nodupB_sound _ h1, hc, h3, triangular_acyclic s L hc ht⟩, ht⟩
 
+theorem PInv.perm {s : Str} {L S : Pivs} (h : PInv s L) (hp : L.Perm S) : PInv s S := by
+  refine ⟨(hp.map _).nodup_iff.1 h.rows, (hp.map _).nodup_iff.1 h.cols, ?_, ?_⟩
+  · intro p hpS; exact h.cand p (hp.mem_iff.2 hpS)
+  · obtain ⟨rk, hrk⟩ := h.acyc
+    exact ⟨rk, fun p hp' q hq' => hrk p (hp.mem_iff.2 hp') q (hp.mem_iff.2 hq')⟩
+
+theorem checkInit_sound (s : Str) (S : Pivs) (h : checkInit s S = true) : PInv s S := by
+  unfold checkInit at h
+  split at h
+  · rename_i L _
+    simp only [Bool.and_eq_true] at h
+    exact (checkPivots_sound s L h.1).1.perm (List.isPerm_iff.1 h.2)
+  · simp at h
+
+/-- a table that passes the checker, together with the rows that remain, is a state satisfying the global
+invariant: the parallel phase may be started from it -/
+theorem checkInit_ginv (s : Str) (S : Pivs) (h : checkInit s S = true) : GInv s ⟨S, remainRows s S, []⟩ :=
+  ⟨checkInit_sound s S h, by simp, remainRows_nodup s S, by simp, remainRows_not_pivot s S, by simp⟩
+
 end Yuiv.C11
